@@ -656,9 +656,12 @@ Section Contracts.
       injection Hsp as Hrs Ha Hnet Hn. subst rs a' net' n'.
       destruct (IH f ch1 (world_with w n1) rs1 a2 net2 n2 G1 (canon_world_with w n1) Hf) as (ch' & E & G & A & I).
       { rewrite A1. exact Er. }
-      exists ch'. unfold serve_batch' in *. cbn [serve_batch]. fold serve'. rewrite Es. rewrite E.
-      cbn [world_with w_lat w_attempts w_prl] in *.
-      split; [reflexivity|]. split; [exact G|]. split; [exact A|]. lia.
+      exists ch'. unfold serve_batch' in *. cbn [serve_batch]. fold serve'. rewrite Es.
+      assert (Ho : match o with ServiceFailed _ => False | _ => True end).
+      { destruct (spec_call_cases _ _ _ _ _ _ Ec) as [(-> & _)|[(-> & _)|(e0 & -> & _)]]; exact Logic.I. }
+      destruct o; try contradiction; rewrite E;
+      cbn [world_with w_lat w_attempts w_prl] in *;
+      (split; [reflexivity|]; split; [exact G|]; split; [exact A|]; lia).
   Qed.
 
   Lemma canon_set_net : forall w n, Canon w -> Canon (set_net w n).
@@ -1235,6 +1238,6 @@ Section BrokenConnector.
     outcome_code (ServiceFailed e) = Some Code_Unavailable /\ outcome_code WorkerClosed = Some Code_Unknown.
   Proof.
     intro e. split; [|reflexivity]. unfold outcome_code, chain_of, chain_of_err.
-    rewrite from_error_skips_unknown_wrappers. exact (chain_connect _).
+    rewrite from_error_skips_unknown_wrappers. reflexivity.
   Qed.
 End BrokenConnector.
